@@ -184,12 +184,34 @@ def gen_mix(rng, size=1.0, weights=None, body_weights=None, wr_prob=0.3):
     out.append("top frameend")
     return "\n".join(out) + "\n"
 
+def gen_signals(rng):
+    """C10: prepare / clone / drop / gc / manual despawn / reparent over several entities."""
+    out = ["def 0 1", "run 0"]
+    n = rng.randint(2, 5)
+    out.append("top acts %d" % n); out += ["spawn"] * n
+    nsig = 0
+    for _ in range(rng.randint(4, 14)):
+        x = rng.random()
+        if x < 0.22 or nsig == 0: out.append("top sigprepare e%d" % rng.randrange(n)); nsig += 1
+        elif x < 0.40: out.append("top sigclone a%d" % rng.randrange(nsig))
+        elif x < 0.70: out.append("top sigdrop a%d" % rng.randrange(nsig))
+        elif x < 0.85: out.append("top gc")
+        elif x < 0.90: out.append("top wdespawn e%d" % rng.randrange(n))
+        elif x < 0.94: out.append("top wdespawnrec e%d" % rng.randrange(n))
+        else: out.append("top wsetparent e%d e%d" % (rng.randrange(n), rng.randrange(n)))
+    out.append("top frameend")
+    return "\n".join(out) + "\n"
+
 PROFILES = {
     "mix": lambda rng: gen_mix(rng),
     "big": lambda rng: gen_mix(rng, size=2.0),
     "wr": lambda rng: gen_mix(rng, wr_prob=1.0, weights=dict(wr=4), body_weights=dict(wr=2)),
     "recursion": lambda rng: gen_mix(rng, size=1.5, body_weights=dict(control=8, trigger=6, register=0.5, life=0.5), weights=dict(control=5, trigger=5)),
     "lifetime": lambda rng: gen_mix(rng, weights=dict(register=4, revoke=4, life=3, trigger=3), body_weights=dict(revoke=2, life=2, register=2)),
+    "signals": gen_signals,
+    "access": lambda rng: gen_mix(rng, weights=dict(access=6, trigger=5, register=1.5), body_weights=dict(access=4, trigger=4)),
+    "once": lambda rng: gen_mix(rng, weights=dict(register=3, trigger=6, revoke=2, life=1), body_weights=dict(trigger=5, register=1.5, revoke=1)),
+    "stale": lambda rng: gen_mix(rng, weights=dict(life=5, trigger=4, control=4, register=2, revoke=2), body_weights=dict(life=4, control=3, trigger=3)),
     "removal": lambda rng: gen_mix(rng, weights=dict(life=5, trigger=5, register=2), body_weights=dict(life=3, trigger=4)),
 }
 
